@@ -56,8 +56,8 @@ pub fn disp_net_opts(rng: &mut Rng) -> NetOpts {
 
 /// Mutual exclusion between segments that are not neighbours (an interlocking two gaps apart): each
 /// direction of the one segment lists both directions of the other. Only between gaps separated by
-/// more than the longest generated train, so that no train holds both itself.
-fn add_remote_lockouts(rng: &mut Rng, net: &mut GenNet) {
+/// more than `min_separation` (the longest train of the instance plus a margin), so that no train holds both itself.
+fn add_remote_lockouts(rng: &mut Rng, net: &mut GenNet, min_separation: f64) {
     let n = net.gaps.len();
     if n < 4 || !net.has_flips {
         return;
@@ -65,7 +65,7 @@ fn add_remote_lockouts(rng: &mut Rng, net: &mut GenNet) {
     for _ in 0..rng.usize(1, 3) {
         let g = rng.usize(0, n - 3);
         let between: f64 = net.gaps[g + 1].iter().map(|l| net.links[*l as usize].length.value).fold(f64::INFINITY, f64::min);
-        if between < 2600.0 {
+        if between < min_separation {
             continue;
         }
         let x = *rng.pick(&net.gaps[g]) as usize;
@@ -90,9 +90,7 @@ pub fn instance(rng: &mut Rng, max_trains: usize) -> Option<Instance> {
     for _ in 0..30 {
         let o = disp_net_opts(rng);
         let mut net = gn::network(rng, &o);
-        if rng.chance(0.25) {
-            add_remote_lockouts(rng, &mut net);
-        }
+        let want_remote_lockouts = rng.chance(0.25);
         if gn::validate(&net.links).is_err() {
             continue;
         }
@@ -110,6 +108,17 @@ pub fn instance(rng: &mut Rng, max_trains: usize) -> Option<Instance> {
                 gt::train(rng, &net.train_types, max_len.max(120.0), o.grade_max)
             })
             .collect();
+        if want_remote_lockouts {
+            // only between segments further apart than the longest train of this instance: a train that holds both
+            // segments of a lockout pair itself is a contradictory input (observed: run_dispatch then returns Ok
+            // with infinite times for that train, because the lockout's clearing time is its own, still open,
+            // authority)
+            let longest = specs.iter().map(|s| s.length).fold(0.0, f64::max);
+            add_remote_lockouts(rng, &mut net, longest + 150.0);
+            if gn::validate(&net.links).is_err() {
+                continue;
+            }
+        }
         let ntrains = rng.usize(1, max_trains);
         let same_depart = rng.chance(0.3);
         let both_dirs = rng.chance(0.8);
